@@ -5,6 +5,7 @@ import (
 	"encoding/base64"
 	"encoding/json"
 	"fmt"
+	"math"
 	"reflect"
 	"sort"
 	"strconv"
@@ -144,12 +145,15 @@ func ip(i int) *int { return &i }
 func f32p(f float32) *float32 { return &f }
 
 var kinds = map[string]kindDef{
-	"bool":   {typ: reflect.TypeOf(false), val: func(v string) any { return v != "z" }},
-	"int":    {typ: reflect.TypeOf(0), val: func(v string) any { return pick(v, 0, 7, 7) }},
-	"uint8":  {typ: reflect.TypeOf(uint8(0)), val: func(v string) any { return pick(v, uint8(0), uint8(200), uint8(200)) }},
-	"float":  {typ: reflect.TypeOf(0.0), val: func(v string) any { return pick(v, 0.0, 0.1234567890123, 1e300) }},
-	"string": {typ: reflect.TypeOf(""), val: func(v string) any { return pick(v, "", "abc", "abc") }},
-	"*int":   {typ: reflect.TypeOf((*int)(nil)), val: func(v string) any { return pick(v, (*int)(nil), ip(7), ip(0)) }},
+	"bool":  {typ: reflect.TypeOf(false), val: func(v string) any { return v != "z" }},
+	"int":   {typ: reflect.TypeOf(0), val: func(v string) any { return pick(v, 0, 7, 7) }},
+	"uint8": {typ: reflect.TypeOf(uint8(0)), val: func(v string) any { return pick(v, uint8(0), uint8(200), uint8(200)) }},
+	"float": {typ: reflect.TypeOf(0.0), val: func(v string) any { return pick(v, 0.0, 0.1234567890123, 1e300) }},
+	// negative zero: empty by == (what omitempty means for encoding/json and every ojg encoder), not by its bits
+	"nzfloat":   {typ: reflect.TypeOf(0.0), val: func(v string) any { return math.Copysign(0, -1) }},
+	"nzfloat32": {typ: reflect.TypeOf(float32(0)), val: func(v string) any { return float32(math.Copysign(0, -1)) }},
+	"string":    {typ: reflect.TypeOf(""), val: func(v string) any { return pick(v, "", "abc", "abc") }},
+	"*int":      {typ: reflect.TypeOf((*int)(nil)), val: func(v string) any { return pick(v, (*int)(nil), ip(7), ip(0)) }},
 	"*S": {typ: reflect.TypeOf((*enctypes.S1)(nil)), val: func(v string) any {
 		return pick(v, (*enctypes.S1)(nil), &enctypes.S1{Sa: 3, Sb: "x"}, &enctypes.S1{})
 	}},
@@ -576,6 +580,15 @@ func tagString(f fieldSpec) string {
 		return `json:",string"`
 	case "dashc":
 		return `json:"-,"`
+	// several options in every order (every tag parser must read the option LIST, not the option text), unknown options mixed in
+	case "stroe":
+		return `json:",string,omitempty"`
+	case "nmstroe":
+		return `json:"` + nm + `,string,omitempty"`
+	case "nmoestr":
+		return `json:"` + nm + `,omitempty,string"`
+	case "xstroe":
+		return `json:",future,string,x,omitempty"`
 	}
 	return ""
 }
